@@ -1918,6 +1918,57 @@ fn cross_kind(ctx: &mut Ctx) {
 		}
 		ctx.nontrivial(hash64(&("hosted effect command", warm, line_frames)));
 	}
+	// 15. streaming sound: seek_by and seek_to issued in one interval (either order of issue): both are consumed by the decoder's next
+	//     step - the stream continues where the static twin, given the same two commands, continues, and stays there
+	for to_first in [false, true] {
+		for (d, p) in [(2.0f64, 5.0f64), (-0.5, 3.0)] {
+			ctx.evals += 1;
+			pacer::set_mode(pacer::Mode::Pacer);
+			let mut m = rig::manager(8, 1, rig::caps(2), MainTrackBuilder::new());
+			let first = pacer::count();
+			let frames: Vec<Frame> = (0..96).map(|i| Frame::new((i + 1) as f32 / 128.0, 0.0)).collect();
+			let (dec, st) = ScriptedDecoder::new(frames.clone(), 8, vec![3, 1, 2], 1);
+			let mut h = m.play(StreamingSoundData::from_decoder(dec)).map_err(|_| ()).unwrap();
+			let mut hs = m.play(rig::static_data(8, frames.iter().map(|f| Frame::new(0.0, f.left)).collect())).unwrap();
+			for _ in 0..4 {
+				pacer::step_all_from(first, 2);
+				rig::callback(&mut m, &mut buf, 1, 2);
+			}
+			if to_first {
+				h.seek_to(p);
+				h.seek_by(d);
+				hs.seek_to(p);
+				hs.seek_by(d);
+			} else {
+				h.seek_by(d);
+				h.seek_to(p);
+				hs.seek_by(d);
+				hs.seek_to(p);
+			}
+			// (left channel: the stream; right channel: the static twin)
+			let mut heard = vec![];
+			for _ in 0..16 {
+				pacer::step_all_from(first, 3);
+				rig::callback(&mut m, &mut buf, 1, 2);
+				heard.push(((buf[0] * 128.0).round() as i64 - 1, (buf[1] * 128.0).round() as i64 - 1));
+			}
+			// after the buffered frames have played out both advance one frame per callback, on the same line
+			let tail = &heard[8..];
+			let same_line = tail.iter().all(|(a, b)| (a - b).abs() <= 2);
+			let advancing = tail.windows(2).all(|w| w[1].0 == w[0].0 + 1 && w[1].1 == w[0].1 + 1);
+			if !same_line || !advancing {
+				ctx.fail(
+					"streaming sound: seek_by and seek_to issued in one interval are not both consumed at once (the stream does not continue where the static twin continues) :: cross-kind",
+					format!("96-frame sounds at 8 Hz (frame i = (i+1)/128), 4 frames heard; {} in one interval; (stream frame, static frame) per callback afterwards {:?}", if to_first { format!("seek_to({} s); seek_by({} s)", p, d) } else { format!("seek_by({} s); seek_to({} s)", d, p) }, heard),
+				);
+			}
+			ctx.nontrivial(hash64(&("two seeks", to_first, d.to_bits())));
+			h.stop(instant());
+			rig::callback(&mut m, &mut buf, 1, 2);
+			drop(m);
+			crate::probes::reap_decoder(first, &st);
+		}
+	}
 	ctx.traces += 26 + 36 + 6 + 4 + 4 + 4;
 	ctx.transitions += 20 + 12 * 7 + 26 + 36 + 100 + 36 * 6 + 6 * 6;
 	ctx.state(hash64(&"cross"));
